@@ -126,7 +126,8 @@ Program == prog \o Closers(open) \o Probes
 \* Reference: environment-passing walk (Lua manual)
 \* ------------------------------------------------------------------------------------------
 \* an environment maps each name to the position of the visible local declaration, 0 = global
-GlobalEnv == [x \in Names |-> 0]
+Fresh == "z"    \* a name that occurs in no generated program (used by RenameIso)
+GlobalEnv == [x \in Names \cup {Fresh} |-> 0]
 Bind(env, x, pos) == IF x = None THEN env ELSE [env EXCEPT ![x] = pos]
 
 ExprRef(e, b, env) ==
@@ -369,6 +370,42 @@ Agree == CheckAgree =>
                          ELSE Target(t, x[1]) = x[2]
 KfSites(p) == {x[1] : x \in {y \in Reference(p) : KF_HeaderClosure(p, y[1])}}
 
+
+\* ------------------------------------------------------------------------------------------
+\* C14: equivalence classes and renaming
+\* ------------------------------------------------------------------------------------------
+SlotA(k) == CASE k = "local" -> 1 [] k = "local2" -> 1 [] k = "assign" -> 0 [] k = "use" -> 1 [] k = "localfunc" -> 2
+              [] k = "func" -> 1 [] k = "fornum" -> 1 [] k = "forin" -> 1 [] OTHER -> 9
+SlotB(k) == CASE k = "local2" -> 2 [] k = "localfunc" -> 4 [] k = "func" -> 3 [] k = "forin" -> 2 [] OTHER -> 9
+ExprBase(k) == CASE k = "local" -> 3 [] k = "local2" -> 4 [] k = "assign" -> 2 [] k \in {"while", "if", "until"} -> 1
+                 [] k = "fornum" -> 3 [] k = "forin" -> 4 [] OTHER -> 9
+\* declaration sites of a program: positions at which a local, loop variable or parameter is declared
+DeclSites(p) ==
+  UNION {LET it == p[i] b == Base(i) IN
+           (IF it.k \in {"local", "local2", "localfunc", "fornum", "forin"} /\ it.a # None THEN {b + SlotA(it.k)} ELSE {})
+           \cup (IF it.k \in {"local2", "localfunc", "func", "forin"} /\ it.b # None THEN {b + SlotB(it.k)} ELSE {})
+           \cup (IF it.e.t = "fn" /\ it.e.p # None THEN {b + ExprBase(it.k) + 1} ELSE {})
+         : i \in 1..Len(p)}
+\* the declaration d together with every use that the reference resolves to it
+Class(p, d) == {d} \cup {x[1] : x \in {y \in Reference(p) : y[2] = d}}
+\* write the fresh name at every position of S
+RenameAt(p, S) ==
+  [i \in 1..Len(p) |->
+     LET it == p[i] b == Base(i) eb == b + ExprBase(it.k) IN
+     [k |-> it.k,
+      a |-> IF b + SlotA(it.k) \in S THEN Fresh ELSE it.a,
+      b |-> IF b + SlotB(it.k) \in S THEN Fresh ELSE it.b,
+      e |-> [t |-> it.e.t,
+             n |-> IF (it.e.t = "name" /\ eb \in S) \/ (it.e.t = "fn" /\ eb + 3 \in S) THEN Fresh ELSE it.e.n,
+             p |-> IF it.e.t = "fn" /\ eb + 1 \in S THEN Fresh ELSE it.e.p]]]
+\* renaming a declaration and exactly its class to a fresh name leaves the resolution structure unchanged,
+\* and renaming a class minus one use, or plus one foreign occurrence of the same name, does not (so the
+\* class is the unique edit set): checked on the reference, i.e. a statement about Lua scoping itself
+RenameIso == \A d \in DeclSites(Program) :
+               Reference(RenameAt(Program, Class(Program, d))) = Reference(Program)
+RenameTight == \A d \in DeclSites(Program) : \A u \in Class(Program, d) \ {d} :
+                 Reference(RenameAt(Program, Class(Program, d) \ {u})) # Reference(Program)
+
 \* deterministic structural hash of a program (sampling only; no semantic role)
 NameCode(x) == IF x = None THEN 0 ELSE CHOOSE i \in 1..Len(NameSeq) : NameSeq[i] = x
 KindSeq == <<"local", "local2", "assign", "use", "localfunc", "func", "do", "repeat", "while", "if",
@@ -383,6 +420,7 @@ ProgHash(p, i) == IF i > Len(p) THEN 0 ELSE (i + 1) * ItemHash(p[i]) + ProgHash(
 Compact(p) == [i \in 1..Len(p) |-> <<p[i].k, p[i].a, p[i].b, p[i].e.t, p[i].e.n, p[i].e.p>>]
 Emit == IF Len(prog) >= MinEmit /\ ProgHash(prog, 1) % EmitMod = 0
         THEN PrintT(<<"CASE", ToJson([p |-> Compact(Program), ref |-> Reference(Program),
-                                      tr |-> Transcribed(Program), kf |-> KfSites(Program)])>>)
+                                      tr |-> Transcribed(Program), kf |-> KfSites(Program),
+                                      decls |-> DeclSites(Program)])>>)
         ELSE TRUE
 =============================================================================
